@@ -215,6 +215,21 @@ PROPERTIES = {
         assumptions=["format/parse inverse pair ('float-format')", "species lists are concrete instances"],
         explanation="writer and reader executed symbolically on the same in-memory text",
     ),
+    "C10": dict(
+        engines="ZB",
+        claim="The real get_Eewald is executed with symbolic positions and charges on concrete cells (cubic, triclinic; 2 and 3 atoms; erfc / cos / exp / "
+              "norm uninterpreted, images enumerated by the real code): invariance under rigid translation and atom permutation, and quadratic scaling "
+              "with the charges are proved. That the truncated sums equal the CONVERGED lattice sum (independence of gcut/gamma, single-atom lattice "
+              "translations, supercell additivity, 1/L scaling, Madelung constants, skewed cells) is a statement about infinite sums that no contract on "
+              "this function decides: bounded native comparisons against an independent Ewald implementation only.",
+        note="the proved clauses are for the listed cells and atom numbers (the pair-loop body does not depend on them); image-count arithmetic is executed "
+             "natively on the concrete cell",
+        modules=["contracts.c10"],
+        level="proof",
+        trusted_base=["ast (parser)", "in-house AST->z3 symbolic executor (engine Z)", "z3 5.1", "numpy for the concrete lattice-image enumeration"],
+        assumptions=["erfc, cos, exp, vector norm: uninterpreted (only functionality is used)", "floats as reals"],
+        explanation="symbolic execution of the real pair loops; equalities of sums of uninterpreted terms discharged by z3",
+    ),
     "C16": dict(
         engines="NAZ",
         claim="The real get_FLO, get_scdm and get_wannier are traced on symbolic matrices (symbolic grid size and number of states): the returned "
